@@ -69,7 +69,12 @@ def check_expected_identifier(token):
 
 
 def parse_script(script, filename="-"):
-    return parse(Lexer(script, filename).scan())
+    try:
+        return parse(Lexer(script, filename).scan())
+    except RecursionError:
+        raise CklSyntaxError(
+            "Program is nested too deeply", SourcePos(filename, 1, 1)
+        ) from None
 
 
 def parse(lexer):
